@@ -90,6 +90,7 @@ def run(ctx):
     ctx.guard(rule_e, ctx, ix, reg, classes)
     ctx.guard(rule_f, ctx, ix)
     ctx.guard(rule_g, ctx, ix)
+    ctx.guard(rule_h, ctx, ix)
 
 
 # ---------------------------------------------------------------------------------------
@@ -573,3 +574,114 @@ def rule_g(ctx, ix):
               accepted=("_subset_groups=list(map(context.object,%s['groups']))" % rec) in t and ("_sg_count=%s['subset_group_count']" % rec) in t,
               absent=("%s['groups']" % rec) not in t or '_sg_count' not in t,
               detail_absent='_load_data_collection_4 no longer restores the subset groups / the group counter', shape='groups', where=lc.where)
+
+
+FALSY_DEFAULTS = ('[]', '{}', '()', "''", '""', '0', '0.0', 'None', 'False', 'set()', 'dict()', 'list()', 'tuple()')
+DEFAULTING_EXCEPTIONS = {
+    ('glue.core.application_base.Application', 'data_collection'):
+        'the only falsy collection is the empty one, and the default DataCollection() is the empty collection too',
+}
+
+
+def _defaulting_params(K):
+    """{param: (default text, node)} for constructor parameters that are replaced when falsy (``p or default``)."""
+    init = K.resolve_func('__init__')
+    if init is None:
+        return {}, None
+    ps = set(init.params)
+    out = {}
+    for n in ast.walk(init.node):
+        if isinstance(n, ast.BoolOp) and isinstance(n.op, ast.Or) and isinstance(n.values[0], ast.Name) and n.values[0].id in ps:
+            out[n.values[0].id] = (unparse(n.values[-1]), n)
+    return out, init
+
+
+def rule_h(ctx, ix):
+    """A saved value is not restored through a constructor parameter that replaces falsy values by another default."""
+    R = 'C02.h'
+    ctx.describe(R, 'saved values do not pass through constructor parameters that replace falsy values (p or default)', floor=3)
+    loaders = [f for q, f in sorted(ix.functions.items()) if f.has_decorator('loader')]
+    for c in sorted(ix.classes.values(), key=lambda c: c.qualname):
+        m = c.members.get('__setgluestate__')
+        if m is not None and m.func is not None:
+            loaders.append(m.func)
+    if len(loaders) < 60:
+        raise AnalysisError('C02.h: only %d loaders found' % len(loaders))
+    n = 0
+    for f in loaders:
+        ps = [p for p in f.params if p not in ('cls', 'self')]
+        if not ps:
+            continue
+        rec = ps[0]
+
+        tainted = set()
+
+        def saved(e):
+            """The expression is a saved value as such (a record entry, possibly re-wrapped or looked up in the context) - not an
+            object built from it by some other constructor or loader, which is never falsy by accident."""
+            if isinstance(e, ast.Name):
+                return e.id == rec or e.id in tainted
+            if isinstance(e, ast.Subscript):
+                return saved(e.value)
+            if isinstance(e, ast.Starred):
+                return saved(e.value)
+            if isinstance(e, (ast.Tuple, ast.List, ast.Set)):
+                return any(saved(x) for x in e.elts)
+            if isinstance(e, ast.Dict):
+                return any(saved(x) for x in e.values if x is not None)
+            if isinstance(e, (ast.GeneratorExp, ast.ListComp, ast.SetComp)):
+                return saved(e.elt) or any(saved(g.iter) for g in e.generators)
+            if isinstance(e, ast.DictComp):
+                return saved(e.value) or any(saved(g.iter) for g in e.generators)
+            if isinstance(e, ast.Call) and call_name(e) in ('list', 'dict', 'tuple', 'map', 'object', 'get', 'sorted', 'zip'):
+                return any(saved(a) for a in e.args) or (isinstance(e.func, ast.Attribute) and call_name(e) == 'get' and saved(e.func.value))
+            return False
+        # local names bound to saved values
+        for _ in range(3):
+            for st in walk_no_nested(f.node):
+                if isinstance(st, ast.Assign) and saved(st.value):
+                    for t in st.targets:
+                        if isinstance(t, ast.Name):
+                            tainted.add(t.id)
+        for call in calls_in(f.node):
+            K = None
+            if isinstance(call.func, ast.Name) and call.func.id == 'cls' and f.cls is not None:
+                K = f.cls
+            else:
+                try:
+                    K = ix.resolve_class(f.module, call.func)
+                except AnalysisError:
+                    K = None
+            if K is None:
+                continue
+            dp, init = _defaulting_params(K)
+            if not dp:
+                continue
+            params = [p for p in init.params if p != init.self_name]
+            flows = []
+            for i, a in enumerate(call.args):
+                if isinstance(a, ast.Starred):
+                    if saved(a.value):
+                        flows.extend((p, a) for p in dp)
+                elif i < len(params) and params[i] in dp and saved(a):
+                    flows.append((params[i], a))
+            for k in call.keywords:
+                if k.arg is None:
+                    if saved(k.value):
+                        flows.extend((p, k.value) for p in dp)
+                elif k.arg in dp and saved(k.value):
+                    flows.append((k.arg, k.value))
+            for p, a in flows:
+                n += 1
+                default = dp[p][0]
+                key = (K.qualname, p)
+                if key in DEFAULTING_EXCEPTIONS:
+                    ctx.exception(R, '%s -> %s(%s)' % (f.construct, K.qualname, p), DEFAULTING_EXCEPTIONS[key])
+                    continue
+                ctx.ob(R, '%s -> %s(%s=...)' % (f.construct, K.name, p),
+                       'a falsy saved value is not replaced by the constructor default', default.replace(' ', '') in FALSY_DEFAULTS,
+                       detail='%s passes the saved value `%s` to %s.__init__ parameter %s, which stores `%s or %s`: a saved falsy value '
+                              '(0, "", empty) comes back as the default instead of the saved value'
+                              % (f.construct, unparse(a)[:80], K.name, p, p, default), where=where(f, call))
+    if n < 3:
+        raise AnalysisError('C02.h: only %d saved-value -> defaulting-parameter flows recognised' % n)
